@@ -151,10 +151,10 @@ def run(chk, tier):
     o = lambda n: os.path.join(common.OUT, n)
 
     # ---- A: model checking
-    jobs = [("StarkLookup F17 N=2", "MCStarkLookup", "MCStarkLookup_thorough" if thorough else "MCStarkLookup_quick", 4, 1700),
-            ("Ctl F17 N=2", "MCCtl", "MCCtl_thorough" if thorough else "MCCtl_quick", 4, 1700)]
+    jobs = [("StarkLookup N=2", "MCStarkLookup", "MCStarkLookup_thorough" if thorough else "MCStarkLookup_quick", 4, 1700),
+            ("Ctl N=2", "MCCtl", "MCCtl_thorough" if thorough else "MCCtl_quick", 4, 1700)]
     if thorough:
-        jobs.append(("StarkLookup F13 N=4", "MCStarkLookup", "MCStarkLookup_n4", 6, 1700))
+        jobs.append(("StarkLookup F13 N=4 (0/1 frequencies)", "MCStarkLookup", "MCStarkLookup_n4", 6, 1700))
     cjobs = [("canary lk " + m, "MCStarkLookup", "MCStarkLookup_canary_" + m, 1, 300) for m, _, q in LK_MUT if q or thorough]
     cjobs += [("canary ctl " + m, "MCCtl", "MCCtl_canary_" + m, 1, 300) for m, _, q in CTL_MUT if q or thorough]
     with ThreadPoolExecutor(max_workers=3) as ex:
